@@ -88,13 +88,14 @@ func VH_C08_fault() {
 	case vhFaultWriteDl:
 		vndAssert(errors.Is(err, errVhIO), "write-deadline failure is reported with its cause")
 		vndAssert(len(s.written) == 0 && len(s.reads) == 0, "nothing is written or read after a failed write deadline")
-	case vhFaultCancel:
+	case vhFaultCancel, vhFaultDeadline:
 		vndAssert(errors.Is(err, c.ctx.Err()), "cancellation is reported as the context's error")
+		vndAssert(!vhIsClientError(err), "the end of the caller's context is not reported as the client's own (retryable) timeout")
 	}
 	if mode != 2 {
 		vndAssert(!s.deadlineViolation, "every read is preceded by a fresh read deadline of at most 500 microseconds")
 	} else {
-		vndAssert(s.flushes >= 1 || fault == vhFaultCancel || fault == vhFaultStall, "the serial client flushes the port on failure paths")
+		vndAssert(s.flushes >= 1 || fault == vhFaultCancel || fault == vhFaultDeadline || fault == vhFaultStall, "the serial client flushes the port on failure paths")
 	}
 }
 
